@@ -193,7 +193,7 @@ static void trip_double(double v) {
         return;
     }
 #ifdef MC_CFG_DTOSTRE
-    if (!(fabs(d_d - v) <= tol) && fabs(d_d - v) <= 8 * ulp_bound(v, 15)) {
+    if (!(fabs(d_d - v) <= tol) && fabs(d_d - v) <= 8 * ulp_bound(v, 15) && (fabs(v) >= 1e60 || fabs(v) < 1e-19)) {      /* only where the pinned tree shows it (C16 profile): decimal exponent <= -20 or >= 60 */
         /* the library's own formatter generates the 15th digit inexactly (up to ~3 units off): known finding of C16 */
         mc_viol("c07/value/double/builtin-formatter-15th-digit-inexact", "double %.17g -> [%s] -> %.17g (deviation %.3g, half a unit is %.3g)", v, mc_e(resp, respn), d_d, fabs(d_d - v), ulp_bound(v, 15));
         return;
